@@ -7,7 +7,43 @@ use serde::{Deserialize, Serialize};
 use std::io::{Cursor, Read};
 use std::sync::Arc;
 
-type Arch = zip::ZipArchive<Cursor<Arc<[u8]>>>;
+type Arch = zip::ZipArchive<PosReader>;
+
+/// A cloneable in-memory reader whose `clone()` may or may not keep the stream position - both are
+/// legal for `Read + Seek + Clone` (a re-opened file starts at 0, a dup'ed cursor keeps its place).
+/// 0 = keeps the position, 1 = rewinds to 0, 2 = lands at the end, 3 = lands in the middle.
+pub struct PosReader {
+    cur: Cursor<Arc<[u8]>>,
+    mode: u8,
+}
+impl PosReader {
+    fn new(b: Arc<[u8]>, mode: u8) -> PosReader {
+        PosReader { cur: Cursor::new(b), mode }
+    }
+}
+impl Clone for PosReader {
+    fn clone(&self) -> PosReader {
+        let mut cur = self.cur.clone();
+        let len = cur.get_ref().len() as u64;
+        match self.mode % 4 {
+            0 => {}
+            1 => cur.set_position(0),
+            2 => cur.set_position(len),
+            _ => cur.set_position(len / 2),
+        }
+        PosReader { cur, mode: self.mode }
+    }
+}
+impl Read for PosReader {
+    fn read(&mut self, b: &mut [u8]) -> std::io::Result<usize> {
+        self.cur.read(b)
+    }
+}
+impl std::io::Seek for PosReader {
+    fn seek(&mut self, p: std::io::SeekFrom) -> std::io::Result<u64> {
+        self.cur.seek(p)
+    }
+}
 
 #[derive(Clone, Debug, Serialize, Deserialize, Hash, PartialEq, Eq)]
 pub enum Step {
@@ -101,6 +137,13 @@ impl Drop for Handle {
 pub struct Case {
     program: Program,
     scripts: Vec<Vec<Step>>,
+    /// what `clone()` of the underlying reader does with the stream position (see PosReader)
+    #[serde(default)]
+    clone_mode: u8,
+    /// Some(k): the clones are not taken from a pristine handle but from one that has just executed the
+    /// first k steps of script 0 (e.g. has an entry half-read or has just read one to the end)
+    #[serde(default)]
+    warm_up: Option<u8>,
 }
 
 /// all interleavings of the scripts (as sequences of handle indices), capped
@@ -132,16 +175,26 @@ static INTERLEAVINGS: std::sync::atomic::AtomicU64 = std::sync::atomic::AtomicU6
 
 fn check(c: &Case, info: &mut Info) -> Result<(), String> {
     let bytes: Arc<[u8]> = gen::run_program(&c.program, false).map_err(|e| format!("harness: {e}"))?.into();
-    let base = zip::ZipArchive::new(Cursor::new(bytes.clone())).map_err(|e| format!("harness: {e}"))?;
+    let base = zip::ZipArchive::new(PosReader::new(bytes.clone(), c.clone_mode)).map_err(|e| format!("harness: {e}"))?;
     let n = base.len();
     let names: Vec<String> = {
-        let mut b = base.clone();
+        let mut b = zip::ZipArchive::new(PosReader::new(bytes.clone(), 0)).map_err(|e| format!("harness: {e}"))?;
         (0..n).map(|i| b.by_index_raw(i).map(|f| f.name().to_string()).unwrap_or_default()).collect()
     };
+    // optionally the handle the clones are taken from has been used first
+    let mut origin = Handle::new(base);
+    if let Some(k) = c.warm_up {
+        for st in c.scripts[0].iter().take(k as usize) {
+            let _ = origin.step(st, n, &names);
+        }
+        origin.file = None;
+    }
+    let base: Arch = unsafe { (*origin.arc).clone() };
+    let base_for_clones = base;
     // each script alone, on a fresh (not cloned) archive
     let mut alone: Vec<Vec<Obs>> = Vec::new();
     for s in &c.scripts {
-        let mut h = Handle::new(zip::ZipArchive::new(Cursor::new(bytes.clone())).map_err(|e| format!("harness: {e}"))?);
+        let mut h = Handle::new(zip::ZipArchive::new(PosReader::new(bytes.clone(), 0)).map_err(|e| format!("harness: {e}"))?);
         alone.push(s.iter().map(|st| h.step(st, n, &names)).collect());
     }
     let lens: Vec<usize> = c.scripts.iter().map(|s| s.len()).collect();
@@ -150,7 +203,7 @@ fn check(c: &Case, info: &mut Info) -> Result<(), String> {
     for il in &all {
         INTERLEAVINGS.fetch_add(1, std::sync::atomic::Ordering::Relaxed);
         // handles are clones of ONE opened archive
-        let mut hs: Vec<Handle> = c.scripts.iter().map(|_| Handle::new(base.clone())).collect();
+        let mut hs: Vec<Handle> = c.scripts.iter().map(|_| Handle::new(base_for_clones.clone())).collect();
         let mut pos = vec![0usize; hs.len()];
         let mut last = usize::MAX;
         for &h in il {
@@ -203,7 +256,7 @@ fn check_threads(c: &TCase) -> Result<(), String> {
         expected.push((f.name().to_string(), v, f.data_start()));
     }
     // a FRESH archive per case: first-use races (lazy caches) only exist on fresh state
-    let fresh = zip::ZipArchive::new(Cursor::new(bytes.clone())).map_err(|e| format!("harness: {e}"))?;
+    let fresh = zip::ZipArchive::new(PosReader::new(bytes.clone(), (c.plans.first().map(|p| p.0).unwrap_or(0) % 4) as u8)).map_err(|e| format!("harness: {e}"))?;
     let nthreads = c.threads.max(2) as usize;
     let barrier = std::sync::Barrier::new(nthreads);
     let errs: std::sync::Mutex<Vec<String>> = std::sync::Mutex::new(Vec::new());
@@ -424,7 +477,7 @@ fn probe_send_sync(ctx: &mut Ctx) {
 }
 
 pub fn run(ctx: &mut Ctx) {
-    ctx.rule("interleavings: 2-3 clones of one opened archive, each with a generated script over {open entry by index / by name, read k bytes, read to end, close}; EVERY interleaving of the scripts at call granularity on one thread (up to 1680 per script set) - each handle must observe exactly what the same script observes on an archive used alone. threads: a fresh archive, N in {2,4,8,16} clones on N OS threads released from a barrier, each opening (by index or by name) and reading all entries in a generated order (shared prefix + private shuffle) with generated yield points; every observation equals that of a handle used alone. faulty_sibling: two clones of a fresh archive take turns; the first clone's OWN reader fails (I/O error / panic) at its k-th I/O call for every k - the second clone must observe exactly what a handle used alone observes. send_sync_probe: a probe crate that only compiles if ZipArchive<R>: Send + Sync for R: Send + Sync. Non-trivial = the interleaving switches handles while an entry is open on another handle.");
+    ctx.rule("interleavings: 2-3 clones of one opened archive (pristine, or just used for the first k steps of a script; the underlying reader's clone() keeps the position, rewinds, or lands elsewhere), each with a generated script over {open entry by index / by name, read k bytes, read to end, close}; EVERY interleaving of the scripts at call granularity on one thread (up to 1680 per script set) - each handle must observe exactly what the same script observes on an archive used alone. threads: a fresh archive, N in {2,4,8,16} clones on N OS threads released from a barrier, each opening (by index or by name) and reading all entries in a generated order (shared prefix + private shuffle) with generated yield points; every observation equals that of a handle used alone. faulty_sibling: two clones of a fresh archive take turns; the first clone's OWN reader fails (I/O error / panic) at its k-th I/O call for every k - the second clone must observe exactly what a handle used alone observes. send_sync_probe: a probe crate that only compiles if ZipArchive<R>: Send + Sync for R: Send + Sync. Non-trivial = the interleaving switches handles while an entry is open on another handle.");
     ctx.assume("OS thread schedules are sampled, not enumerated (the single-thread interleaving enumeration is the deciding part); Send/Sync is a compile-time fact observed by a build probe");
     if ctx.is_run() {
         probe_send_sync(ctx);
@@ -434,7 +487,7 @@ pub fn run(ctx: &mut Ctx) {
         probe_send_sync(&mut tmp);
         ctx.replay_verdict = Some(if tmp.violations.is_empty() { Verdict::Pass } else { Verdict::Fail(tmp.violations[0].message.clone()) });
     }
-    let n = ctx.q(150, 3000);
+    let n = ctx.q(500, 5000);
     ctx.max_shrink_iters = 300;
     ctx.explore::<Case>(
         "interleavings",
@@ -446,11 +499,18 @@ pub fn run(ctx: &mut Ctx) {
                 gen::program(5, 20000, false, false).prop_filter("has entries", |p| gen::entry_count(p) > 0).prop_map(gen::tame),
                 prop_oneof![2 => (script(2, 4), script(2, 4)).prop_map(|(a, b)| vec![a, b]), 1 => (script(3, 3), script(3, 3), script(2, 3)).prop_map(|(a, b, c)| vec![a, b, c]), 1 => (script(4, 6), script(3, 5)).prop_map(|(a, b)| vec![a, b])],
             )
-                .prop_map(|(program, scripts)| Case { program, scripts })
+                .prop_map(|(program, scripts)| Case { program, scripts, clone_mode: 0, warm_up: None })
+                .prop_flat_map(|c| (Just(c), 0u8..4, prop_oneof![2 => Just(None), 1 => (1u8..5).prop_map(Some)]).prop_map(|(mut c, m, w)| {
+                    c.clone_mode = m;
+                    c.warm_up = w;
+                    c
+                }))
                 .boxed()
         },
         &|c: &Case, info: &mut Info| {
             info.label(if c.scripts.len() == 3 { "3-handles" } else { "2-handles" });
+            info.label(["clone-keeps-position", "clone-rewinds", "clone-at-end", "clone-in-the-middle"][(c.clone_mode % 4) as usize]);
+            info.label_if(c.warm_up.is_some(), "cloned-from-a-used-handle");
             match catch(|| check(c, info)) {
                 Ok(r) => Verdict::from_result(r),
                 Err(p) => Verdict::Fail(format!("PANIC: {p}")),
